@@ -2,6 +2,7 @@
 import RelicVerif.Lemmas.NtSmb
 import RelicVerif.Lemmas.NtSmbPrime
 import RelicVerif.Lemmas.NtSmbPrime2
+import RelicVerif.Lemmas.NtSmbInner
 
 namespace Relic.Props.C09
 open Relic.Model
@@ -21,7 +22,8 @@ theorem smb_jac_single_exact_zero (n d : ℕ) (hd : d % 2 = 1) : NtSmb.jacSingle
 /- Full statement (NOT proved; what is missing is the multi-digit reduction step: that the 2x2 matrix accumulated on the
    approximations moves the TRUE pair (t0, t1) by the same elementary moves — swap / subtract / halve — up to the sign of the
    results, with the t updates read from low bits that agree with the true ones, that the combination is exactly divisible by 2^s,
-   that `t ^= t1->dp[0]` accounts for (-1 / t1) when t0 came out negative, and termination of the outer loop):
+   that `t ^= t1->dp[0]` accounts for (-1 / t1) when t0 came out negative, and termination of the outer loop; the no-wrap bound of the
+   cofactors and det = ± 2^s ARE proved: smb_jac_inner_matrix below):
 
    theorem smb_jac_exact (w : ℕ) (a b : ℤ) (hw : 8 ≤ w) (hb : 0 < b) (hodd : b % 2 = 1) :
        NtSmb.jac w a b = some (jacobiSym a b.toNat)
@@ -92,5 +94,15 @@ theorem prime_solov_complete_one_digit (w n : ℕ) (hw : 0 < w) (hp : n.Prime) (
     · exact h
   have := smb_jac_exact_partial w (t : ℤ) (n : ℤ) hw (by exact_mod_cast hp.pos) (by exact_mod_cast hodd) (by exact_mod_cast hlt)
   simp only [this, Option.getD_some, Int.toNat_natCast]
+
+/-- The approximation loop of bn_smb_jac never wraps and records a 2^s-unimodular matrix: for every digit width w ≥ 4, every approximation
+    pair (n, d) and every t, after the s = w/2 - 2 steps from the identity all four cofactors lie in [-2^s, 2^s] (so every `(dig_t)ci << z`,
+    `ci += ci`, `ai - ci` is exact in dis_t) and ai·di - bi·ci = ± 2^s.  (General form for any start state: Lemmas/NtSmbInner.inner_matrix.) -/
+theorem smb_jac_inner_matrix (w n d t : ℕ) (hw : 4 ≤ w) :
+    let st := NtSmb.inner w (w / 2 - 2) (w / 2 - 2) { n := n, d := d, t := t, ai := 1, bi := 0, ci := 0, di := 1, swapped := false }
+    (-(2 : ℤ) ^ (w / 2 - 2) ≤ st.ai ∧ st.ai ≤ 2 ^ (w / 2 - 2) ∧ -(2 : ℤ) ^ (w / 2 - 2) ≤ st.bi ∧ st.bi ≤ 2 ^ (w / 2 - 2) ∧
+     -(2 : ℤ) ^ (w / 2 - 2) ≤ st.ci ∧ st.ci ≤ 2 ^ (w / 2 - 2) ∧ -(2 : ℤ) ^ (w / 2 - 2) ≤ st.di ∧ st.di ≤ 2 ^ (w / 2 - 2)) ∧
+    (st.ai * st.di - st.bi * st.ci = 2 ^ (w / 2 - 2) ∨ st.ai * st.di - st.bi * st.ci = -2 ^ (w / 2 - 2)) :=
+  Relic.Lemmas.NtSmb.inner_from_identity w n d t hw
 
 end Relic.Props.C09
